@@ -116,7 +116,8 @@ impl<'g> SentenceGen<'g> {
             "SYMBOL" => {
                 let n = r["name"].as_str().unwrap_or("");
                 if let Some(s) = self.samples.get(n) {
-                    out.push(Tok { text: t.pick(s).clone(), immediate: false });
+                    let immediate = self.rules.get(n).map(|r| is_immediate(r)).unwrap_or(false);
+                    out.push(Tok { text: t.pick(s).clone(), immediate });
                     *budget -= 1;
                 } else if let Some(rr) = self.rules.get(n) {
                     self.expand(rr, t, budget, out, depth + 1);
@@ -219,6 +220,14 @@ impl<'g> SentenceGen<'g> {
                 }
             }
         }
+    }
+}
+
+fn is_immediate(r: &Value) -> bool {
+    match r["type"].as_str().unwrap_or("") {
+        "IMMEDIATE_TOKEN" => true,
+        "PREC" | "PREC_LEFT" | "PREC_RIGHT" | "PREC_DYNAMIC" | "ALIAS" | "FIELD" => is_immediate(&r["content"]),
+        _ => false,
     }
 }
 
